@@ -263,6 +263,43 @@ fn truncations(st: &mut Stats) {
     st.merge(part);
 }
 
+/// Extended length fields that claim more than follows: every single bit of the 16-bit and of the 64-bit length
+/// field, alone and together with a small low part n, followed by exactly n payload bytes and then the end of the
+/// input. Such a frame is truncated whatever the decoder makes of the high bits (ignoring, masking or
+/// narrowing them would turn it into a complete n-byte frame).
+fn claimed_lengths(st: &mut Stats) {
+    let mut s = Stats::default();
+    for (form, bits) in [(126u8, 16u32), (127u8, 64u32)] {
+        for b in 0..bits {
+            for n in [0u64, 1, 5, 125] {
+                let claimed: u64 = (1u64 << b) | n;
+                if claimed <= n {
+                    continue;
+                }
+                for mask in [false, true] {
+                    let mut bytes = vec![0x82u8, form | if mask { 0x80 } else { 0 }];
+                    if form == 126 {
+                        bytes.extend_from_slice(&(claimed as u16).to_be_bytes());
+                    } else {
+                        bytes.extend_from_slice(&claimed.to_be_bytes());
+                    }
+                    if mask {
+                        bytes.extend_from_slice(&[1, 2, 3, 4]);
+                    }
+                    bytes.extend_from_slice(&pattern(n as usize));
+                    s.states += 1;
+                    s.nontrivial += 1;
+                    // the most significant bit of the 64-bit form must be 0 (RFC 6455 5.2): a decoder may refuse it
+                    // for that reason instead, so any error is accepted there
+                    let want = if b == 63 { vec![WebsocketError::ReadError, WebsocketError::InvalidOpcode, WebsocketError::ConnectionClosed] } else { vec![WebsocketError::ReadError] };
+                    check_decode(&mut s, &bytes, &Err(want), "claimed-length-exceeds-input", Depth::Single);
+                }
+            }
+        }
+    }
+    st.merge(s);
+}
+
 fn messages(st: &mut Stats, lens: &[usize]) {
     let mut s = Stats::default();
     for &len in lens {
@@ -310,6 +347,7 @@ pub fn run(mut cx: Ctx) -> ! {
     roundtrip_family(&mut st, &lens, &keys, Depth::Pairs);
     all_headers(&mut st);
     truncations(&mut st);
+    claimed_lengths(&mut st);
     messages(&mut st, &lens);
     cx.stats.merge(st);
     cx.assume("payload contents: one position-dependent pattern per length (all 256 byte values occur); arbitrary contents beyond that are not enumerated");
